@@ -164,10 +164,6 @@ def oracle(case, impl):
                 want = _qty.tok_value(a) * su == _qty.tok_value(b) * sv
                 if eq != want:
                     fails.append({"site": "hash:eq-wrong", "msg": f"{o} -> {out}"})
-            elif ctx.kind == "user" and u != v and eq:
-                # a unit without scale (no definition / no reference unit, no
-                # converter in these contexts) is convertible to nothing
-                fails.append({"site": "hash:eq-wrong", "msg": f"{o} -> {out}: not convertible, yet equal"})
             if eq and not heq:
                 site = "hash:quantity"
                 if (su is None or sv is None) and ctx.classes[ctx.units[u]["cls"]]["ref"] is None:
